@@ -135,60 +135,71 @@ func (t *c01Transport) snapshot() ([][]byte, []uint32) {
 // ---- script ----
 
 type c01Op struct {
-	K    string `json:"k"` // pub | pub0 | drop | dup | deliver | clear | reset | join | leave
-	F    bool   `json:"f,omitempty"`
-	Size int    `json:"size,omitempty"`
-	I    int    `json:"i,omitempty"`
-	Lag  bool   `json:"lag,omitempty"`
-	Unsub int   `json:"unsub,omitempty"` // deliverx: unsubscribe (1 client command, 2 server API) started between CheckPosition and Enqueue
+	K     string `json:"k"` // pub | pub0 | drop | dup | deliver | clear | reset | join | leave
+	F     bool   `json:"f,omitempty"`
+	Size  int    `json:"size,omitempty"`
+	I     int    `json:"i,omitempty"`
+	Lag   bool   `json:"lag,omitempty"`
+	Unsub int    `json:"unsub,omitempty"` // deliverx: unsubscribe (1 client command, 2 server API) started between CheckPosition and Enqueue
 }
 
 type c01Script struct {
-	Server     bool      `json:"server"`
-	Connect    bool      `json:"connect,omitempty"` // connect-time server-side subscription (ConnectReply.Subscriptions); excludes Server
-	Pos        bool      `json:"pos"`
-	Rec        bool      `json:"rec"`
-	JL         bool      `json:"jl"`
-	Batch      bool      `json:"batch"` // per-channel batching (MaxDelay), C10 only
+	Server  bool `json:"server"`
+	Connect bool `json:"connect,omitempty"` // connect-time server-side subscription (ConnectReply.Subscriptions); excludes Server
+	Pos     bool `json:"pos"`
+	Rec     bool `json:"rec"`
+	JL      bool `json:"jl"`
+	Batch   bool `json:"batch"` // per-channel batching (MaxDelay), C10 only
+	// C10 only, with Batch: GetChannelBatchConfig (an application callback) reports "no batching"
+	// exactly while the user-initiated unsubscribe of the script runs (a configuration reload
+	// racing the unsubscribe).  No broadcast happens while it is off, so for the code as it stands
+	// (which consults the callback only per broadcast) the schedule is unchanged
+	BatchReload bool `json:"batch_reload,omitempty"`
+	// the channel runs behind a channel medium with SharedPositionSync (direct mode: no queue):
+	// publications reach the hub through channelMedium.broadcastPublication, and the "mark" op makes
+	// the medium detect a position loss (Node.checkPosition with a lost position, as another
+	// subscriber's periodic check would) and broadcast its insufficient-state marker
+	Medium     bool      `json:"medium,omitempty"`
 	SinceDelta int       `json:"since_delta"` // since = max(0, top+delta) at request time
 	SinceEp    int       `json:"since_ep"`    // 0 "", 1 current epoch, 2 stale/bogus
 	Phase      [][]c01Op `json:"phase"`       // 0 before reserve, 1 after reserve (client), 2 after hub add, 3 after history read, 4 server: after merge, 5 server: after commit, 6 after subscribe, 7 after unsubscribe, 8 after close
-	Unsub      int       `json:"unsub"` // 0 none, 1 client command, 2 server API
+	Unsub      int       `json:"unsub"`       // 0 none, 1 client command, 2 server API
 	Close      bool      `json:"close"`
 }
 
 type c01World struct {
-	t       *testing.T
-	node    *Node
-	br      *c01Broker
-	client  *Client
-	tr      *c01Transport
-	sc      *c01Script
-	fl      []c01Tok
-	glog    []c01Pub
-	byID    map[int]c01Pub
-	nextID  int
-	curEp   uint64
-	epIdx   map[string]uint64
-	epStr   map[uint64]string
-	sched   []string
-	since   uint64
-	sinceEp uint64
-	insuff  int32
-	insuffH int32
-	armLog  int32
-	armDPF  int32
-	arrive  chan string
-	release chan struct{}
-	subCb   func()
-	blocked chan struct{} // a delivery goroutine parked behind the locked buffer
-	locked  bool          // subscribe thread is between LMerge and LStopBuf
-	errs    []string
-	curPh   int
-	phaseOf map[int]int // publication id -> script phase of its last delivery
-	deliv   []string    // Coq frames of the messages handed to the node, in delivery order
-	delivK  []string    // the same as comparable keys (pub:<id> | join | leave)
-	cwEnd   int         // items left in the channel's batching writer when the schedule ended
+	t        *testing.T
+	node     *Node
+	br       *c01Broker
+	client   *Client
+	tr       *c01Transport
+	sc       *c01Script
+	fl       []c01Tok
+	glog     []c01Pub
+	byID     map[int]c01Pub
+	nextID   int
+	curEp    uint64
+	epIdx    map[string]uint64
+	epStr    map[uint64]string
+	sched    []string
+	since    uint64
+	sinceEp  uint64
+	insuff   int32
+	insuffH  int32
+	armLog   int32
+	armDPF   int32
+	arrive   chan string
+	release  chan struct{}
+	subCb    func()
+	blocked  chan struct{} // a delivery goroutine parked behind the locked buffer
+	locked   bool          // subscribe thread is between LMerge and LStopBuf
+	errs     []string
+	curPh    int
+	phaseOf  map[int]int // publication id -> script phase of its last delivery
+	deliv    []string    // Coq frames of the messages handed to the node, in delivery order
+	delivK   []string    // the same as comparable keys (pub:<id> | join | leave)
+	batchOff int32
+	cwEnd    int // items left in the channel's batching writer when the schedule ended
 }
 
 func (w *c01World) fail(format string, a ...any) {
@@ -206,8 +217,16 @@ func (w *c01World) emitL(l string)   { w.emit("(HL " + l + ")") }
 func c01NewWorld(t *testing.T, sc *c01Script) *c01World {
 	w := &c01World{t: t, sc: sc, byID: map[int]c01Pub{}, curEp: 1, epIdx: map[string]uint64{"": 0}, epStr: map[uint64]string{0: ""},
 		arrive: make(chan string), release: make(chan struct{})}
+	var mediumFn func(string) ChannelMediumOptions
+	checkDelay := time.Duration(0)
+	if sc.Medium {
+		mediumFn = func(string) ChannelMediumOptions { return ChannelMediumOptions{SharedPositionSync: true} }
+		checkDelay = time.Nanosecond // the shared check's rate limit never suppresses a check
+	}
 	n, err := New(Config{
-		LogLevel: LogLevelDebug,
+		GetChannelMediumOptions:         mediumFn,
+		ClientChannelPositionCheckDelay: checkDelay,
+		LogLevel:                        LogLevelDebug,
 		LogHandler: func(e LogEntry) {
 			if strings.HasPrefix(e.Message, "client insufficient state") {
 				atomic.AddInt32(&w.insuff, 1)
@@ -217,7 +236,7 @@ func c01NewWorld(t *testing.T, sc *c01Script) *c01World {
 			}
 		},
 		ClientChannelPositionMaxTimeLag: time.Hour,
-		GetChannelBatchConfig: c01BatchFn(sc),
+		GetChannelBatchConfig:           c01BatchFn(w),
 	})
 	if err != nil {
 		t.Fatal(err)
@@ -261,11 +280,16 @@ func c01NewWorld(t *testing.T, sc *c01Script) *c01World {
 
 // per-channel batching: the flush timer is an hour away; the driver fires it itself
 // (opFlush), so flushes happen at schedule-chosen points
-func c01BatchFn(sc *c01Script) func(string) ChannelBatchConfig {
-	if !sc.Batch {
+func c01BatchFn(w *c01World) func(string) ChannelBatchConfig {
+	if !w.sc.Batch {
 		return nil
 	}
-	return func(string) ChannelBatchConfig { return ChannelBatchConfig{MaxDelay: time.Hour} }
+	return func(string) ChannelBatchConfig {
+		if atomic.LoadInt32(&w.batchOff) == 1 {
+			return ChannelBatchConfig{}
+		}
+		return ChannelBatchConfig{MaxDelay: time.Hour}
+	}
 }
 
 // the channel writer's timer fires: same effect as channelWriter.waitTimer's timer branch
@@ -582,6 +606,29 @@ func (w *c01World) opDeliverSplit(i int, unsub int) {
 	w.settleInsufficient()
 }
 
+// the channel medium detects a position loss and broadcasts its marker (outside the subscribe
+// window only: the model has the marker there)
+func (w *c01World) opMark() {
+	if !w.sc.Medium || w.curPh < 6 || w.blocked != nil || w.locked {
+		return
+	}
+	mu := w.node.mediumLock(c01Ch)
+	mu.Lock()
+	_, ok := w.node.mediumShard(c01Ch)[c01Ch]
+	mu.Unlock()
+	if !ok {
+		return
+	}
+	w.emitL("LMarker")
+	w.emitL(fmt.Sprintf("(LDeliver %d%%nat false)", len(w.fl)))
+	valid, err := w.node.checkPosition(c01Ch, StreamPosition{Offset: 0, Epoch: "c01-lost-position"}, 0, false)
+	if err != nil || valid {
+		w.fail("medium position check: valid=%v err=%v", valid, err)
+	}
+	w.emit("HTail")
+	w.settleInsufficient()
+}
+
 func (w *c01World) joinBlocked() {
 	if w.blocked == nil {
 		return
@@ -623,6 +670,8 @@ func (w *c01World) runOps(ops []c01Op) {
 			w.opDeliver(op.I, op.Lag)
 		case "flush":
 			w.opFlush()
+		case "mark":
+			w.opMark()
 		case "deliverx":
 			w.opDeliverSplit(op.I, op.Unsub)
 		case "clear":
@@ -813,6 +862,9 @@ func (w *c01World) run() {
 	w.phase(0)
 	w.subscribe()
 	w.phase(6)
+	if w.sc.Batch && w.sc.BatchReload {
+		atomic.StoreInt32(&w.batchOff, 1)
+	}
 	switch w.sc.Unsub {
 	case 1:
 		if !w.tr.isClosed() && w.subFinished() {
@@ -825,6 +877,7 @@ func (w *c01World) run() {
 			w.emit("(HUnsub UServer)")
 		}
 	}
+	atomic.StoreInt32(&w.batchOff, 0)
 	w.phase(7)
 	if w.sc.Close && !w.tr.isClosed() {
 		_ = w.client.close(DisconnectForceNoReconnect)
@@ -1157,12 +1210,31 @@ func c01RandScript(r *rand.Rand, pos bool, jl bool) *c01Script {
 	if !sc.Server && r.Intn(3) == 0 {
 		sc.Connect = true
 	}
+	c01AddMedium(r, sc)
 	return sc
 }
 
-func c01P(f bool) c01Op             { return c01Op{K: "pub", F: f, Size: 100} }
-func c01D(i int) c01Op              { return c01Op{K: "deliver", I: i} }
-func c01Ops(ops ...c01Op) []c01Op   { return ops }
+// a third of the scripts run behind a channel medium; half of those see a marker
+func c01AddMedium(r *rand.Rand, sc *c01Script) {
+	if r.Intn(3) != 0 {
+		return
+	}
+	sc.Medium = true
+	if r.Intn(2) == 0 {
+		ph := 6
+		if sc.Unsub != 0 && r.Intn(3) == 0 {
+			ph = 7
+		}
+		ops := sc.Phase[ph]
+		at := r.Intn(len(ops) + 1)
+		ops = append(ops[:at:at], append([]c01Op{{K: "mark"}}, ops[at:]...)...)
+		sc.Phase[ph] = ops
+	}
+}
+
+func c01P(f bool) c01Op           { return c01Op{K: "pub", F: f, Size: 100} }
+func c01D(i int) c01Op            { return c01Op{K: "deliver", I: i} }
+func c01Ops(ops ...c01Op) []c01Op { return ops }
 func c01Phases(m map[int][]c01Op) [][]c01Op {
 	ph := make([][]c01Op, 9)
 	for k, v := range m {
@@ -1235,6 +1307,12 @@ func c01Corpus() []*c01Script {
 		{Connect: true, Pos: true, Rec: true, SinceDelta: -3, SinceEp: 1, Unsub: 2, Phase: c01Phases(map[int][]c01Op{0: c01Ops(P(false), P(false), P(false), c01Op{K: "pub", Size: 1}), 6: c01Ops(P(false), D(4)), 7: c01Ops(P(false), D(0))})},
 		// 28: connect-time, client unsubscribe command, then close
 		{Connect: true, Pos: true, Unsub: 1, Close: true, Phase: c01Phases(map[int][]c01Op{6: c01Ops(P(false), D(0)), 7: c01Ops(P(false), D(0)), 8: c01Ops(P(false), D(0))})},
+		// 29: behind a channel medium (shared position sync): the marker ends a positioned subscription
+		{Medium: true, Pos: true, Phase: c01Phases(map[int][]c01Op{0: c01Ops(P(false), D(0)), 6: c01Ops(P(false), D(0), c01Op{K: "mark"}, P(false), D(0))})},
+		// 30: same, server-side subscription (disconnect), recovery on
+		{Medium: true, Server: true, Pos: true, Rec: true, SinceDelta: 0, SinceEp: 1, Phase: c01Phases(map[int][]c01Op{0: c01Ops(P(false), D(0)), 6: c01Ops(P(false), D(0), c01Op{K: "mark"}, P(false), D(0))})},
+		// 31: the marker is invisible to a non-positioned subscription
+		{Medium: true, Phase: c01Phases(map[int][]c01Op{6: c01Ops(P(false), D(0), c01Op{K: "mark"}, P(false), D(0))})},
 	}
 }
 
